@@ -1,5 +1,6 @@
 import Driver.Common
 import Logrange.Model.RdQueryLoop
+import Logrange.Model.RdWindow
 import Logrange.Generated.C03
 /-!
 Line protocol of the reading models (C03 paging, C16 offsets); shared by `lrmodel_c03` and `lrmodel_c16`.
@@ -12,7 +13,8 @@ Journals (the store): one partition = one `src` line.
 Stand-alone journal iterator (library `journal.JIterator` or `partition.JIterator`):
 * `it.new <name> lib|rng` · `it.get` → `<lbl>|eof` · `it.next` · `it.bkwd 0|1` · `it.release` ·
   `it.setpos <cid> <idx>` · `it.pos` → `<cid>:<idx>`
-* `it.spec` → SPEC: labels of `recordsFrom journal pos` (what a forward drain must still deliver)
+* `it.spec` → SPEC: labels of `recordsFrom journal pos` (what a forward drain must still deliver); for `rng`:
+  `f|b <labels of rSpecDrain>` (what a drain in the iterator's direction must deliver) or `n/a` outside `RWF`
 Cursor:
 * `c.new <where 0|1> <min|none> <max|none> <ranged 0|1> <head|tail> <name>*`   (names in leaf order)
 * `c.get` → `<lbl>|eof` · `c.next` · `c.offset <k>` · `c.bkwd 0|1` · `c.release` ·
@@ -110,7 +112,12 @@ def step (d : DSt) (toks : List String) : DSt × String :=
   | ["it.spec"] =>
     (match d.it with
      | .lib it => (d, labels (recordsFrom (jOf d d.itName) (effPos it)))
-     | .rng _ => (d, "n/a"))
+     | .rng it =>
+       -- ranged: the abstraction-level prediction of the theorems (`ranged_drain_is_spec`): the admitted records from
+       -- the iterator's index on (forward) / at or before its position in reverse (backward); `n/a` when the state
+       -- is outside `RWF` (status cache stale after the journal grew, chunk iterator moved out of its window by SetPos)
+       let j := jOf d d.itName
+       (d, if rwfB j it then (if it.bkwd then "b " else "f ") ++ labels (rSpecDrain j it) else "n/a"))
   | "c.new" :: w :: mn :: mx :: rg :: corner :: names =>
     let ranged := rg == "1"
     let srcs : List Src := names.map (fun n =>
